@@ -339,11 +339,115 @@ pub fn events_for<V: Variant>() -> Vec<Event> {
     evs
 }
 
+// ---------------------------------------------------------------------------
+// strict recording Serializer: a hash must be exactly ONE str (human-readable) or ONE bytes
+// (compact) item of the serde data model, nothing wrapped around it
+
+#[derive(Debug, PartialEq)]
+pub enum Recorded {
+    Str(String),
+    Bytes(Vec<u8>),
+}
+
+pub struct RecSer {
+    pub human: bool,
+}
+
+macro_rules! reject {
+    ($($name:ident($($arg:ty),*);)*) => {
+        $(fn $name(self, $(_: $arg),*) -> Result<Recorded, MockError> {
+            Err(serde::ser::Error::custom(concat!("unexpected ", stringify!($name))))
+        })*
+    };
+}
+
+impl serde::ser::Error for MockError {
+    fn custom<T: std::fmt::Display>(msg: T) -> Self {
+        MockError(msg.to_string())
+    }
+}
+
+impl serde::Serializer for RecSer {
+    type Ok = Recorded;
+    type Error = MockError;
+    type SerializeSeq = serde::ser::Impossible<Recorded, MockError>;
+    type SerializeTuple = serde::ser::Impossible<Recorded, MockError>;
+    type SerializeTupleStruct = serde::ser::Impossible<Recorded, MockError>;
+    type SerializeTupleVariant = serde::ser::Impossible<Recorded, MockError>;
+    type SerializeMap = serde::ser::Impossible<Recorded, MockError>;
+    type SerializeStruct = serde::ser::Impossible<Recorded, MockError>;
+    type SerializeStructVariant = serde::ser::Impossible<Recorded, MockError>;
+    fn is_human_readable(&self) -> bool {
+        self.human
+    }
+    fn serialize_str(self, v: &str) -> Result<Recorded, MockError> {
+        Ok(Recorded::Str(v.to_string()))
+    }
+    fn serialize_bytes(self, v: &[u8]) -> Result<Recorded, MockError> {
+        Ok(Recorded::Bytes(v.to_vec()))
+    }
+    reject! {
+        serialize_bool(bool); serialize_i8(i8); serialize_i16(i16); serialize_i32(i32); serialize_i64(i64);
+        serialize_u8(u8); serialize_u16(u16); serialize_u32(u32); serialize_u64(u64); serialize_f32(f32); serialize_f64(f64);
+        serialize_char(char); serialize_none(); serialize_unit(); serialize_unit_struct(&'static str);
+        serialize_unit_variant(&'static str, u32, &'static str);
+    }
+    fn serialize_some<T: ?Sized + Serialize>(self, _: &T) -> Result<Recorded, MockError> {
+        Err(serde::ser::Error::custom("unexpected serialize_some"))
+    }
+    fn serialize_newtype_struct<T: ?Sized + Serialize>(self, name: &'static str, _: &T) -> Result<Recorded, MockError> {
+        Err(serde::ser::Error::custom(format!("unexpected serialize_newtype_struct({name:?}, ..)")))
+    }
+    fn serialize_newtype_variant<T: ?Sized + Serialize>(self, _: &'static str, _: u32, _: &'static str, _: &T) -> Result<Recorded, MockError> {
+        Err(serde::ser::Error::custom("unexpected serialize_newtype_variant"))
+    }
+    fn serialize_seq(self, _: Option<usize>) -> Result<Self::SerializeSeq, MockError> {
+        Err(serde::ser::Error::custom("unexpected serialize_seq"))
+    }
+    fn serialize_tuple(self, _: usize) -> Result<Self::SerializeTuple, MockError> {
+        Err(serde::ser::Error::custom("unexpected serialize_tuple"))
+    }
+    fn serialize_tuple_struct(self, _: &'static str, _: usize) -> Result<Self::SerializeTupleStruct, MockError> {
+        Err(serde::ser::Error::custom("unexpected serialize_tuple_struct"))
+    }
+    fn serialize_tuple_variant(self, _: &'static str, _: u32, _: &'static str, _: usize) -> Result<Self::SerializeTupleVariant, MockError> {
+        Err(serde::ser::Error::custom("unexpected serialize_tuple_variant"))
+    }
+    fn serialize_map(self, _: Option<usize>) -> Result<Self::SerializeMap, MockError> {
+        Err(serde::ser::Error::custom("unexpected serialize_map"))
+    }
+    fn serialize_struct(self, _: &'static str, _: usize) -> Result<Self::SerializeStruct, MockError> {
+        Err(serde::ser::Error::custom("unexpected serialize_struct"))
+    }
+    fn serialize_struct_variant(self, _: &'static str, _: u32, _: &'static str, _: usize) -> Result<Self::SerializeStructVariant, MockError> {
+        Err(serde::ser::Error::custom("unexpected serialize_struct_variant"))
+    }
+}
+
+/// The data-model events a hash serializes to.
+pub fn judge_serialize_events<V: SerdeVariant>(bytes: &[u8]) -> Result<(), String>
+where
+    V::Hash: Serialize + DeserializeOwned,
+{
+    let h = V::from_slice(bytes).map_err(|e| format!("try_from: {e:?}"))?;
+    let text = String::from_utf8(ref_hex_format(bytes, V::CK, true)).unwrap();
+    match catch(|| h.serialize(RecSer { human: true })).map_err(|p| format!("serialize panicked: {p}"))? {
+        Ok(Recorded::Str(s)) if s == text => {}
+        other => return Err(format!("{} human-readable serialization of {} is {:?}, expected exactly one str item {text:?}", V::NAME, hex(bytes), other.map_err(|e| e.0))),
+    }
+    match catch(|| h.serialize(RecSer { human: false })).map_err(|p| format!("serialize panicked: {p}"))? {
+        Ok(Recorded::Bytes(b)) if b == bytes => {}
+        other => return Err(format!("{} compact serialization of {} is {:?}, expected exactly one bytes item carrying the binary form", V::NAME, hex(bytes), other.map_err(|e| e.0))),
+    }
+    Ok(())
+}
+
 /// Real formats: canonical encodings and round trip.
 pub fn judge_formats<V: SerdeVariant>(bytes: &[u8]) -> Result<(), String>
 where
     V::Hash: Serialize + DeserializeOwned,
 {
+    judge_serialize_events::<V>(bytes)?;
     let h = V::from_slice(bytes).map_err(|e| format!("try_from: {e:?}"))?;
     // JSON
     let js = catch(|| serde_json::to_string(&h)).map_err(|p| format!("json serialize panicked: {p}"))?.map_err(|e| format!("json serialize: {e}"))?;
@@ -495,7 +599,7 @@ where
     if ctx.want(&name) {
         r.section(
             &name,
-            "real formats (serde_json, ciborium, postcard): for every one-byte-deviation value and every header window (constructible in this build) the JSON form is the quoted T1 hex string, the CBOR / postcard payload is a byte string carrying store_into_bytes, and de(ser(h)) == h; distinct by enumeration; non-trivial = all",
+            "a strict recording Serializer sees exactly one str item (the T1 text) in human-readable mode and exactly one bytes item (the binary form) in compact mode, no wrapper; real formats (serde_json, ciborium, postcard): for every one-byte-deviation value and every header window (constructible in this build) the JSON form is the quoted T1 hex string, the CBOR / postcard payload is a byte string carrying store_into_bytes, and de(ser(h)) == h; distinct by enumeration; non-trivial = all",
             &format!("{} + {} values x 3 formats", value_count::<V>(), header_window_count::<V>()),
             true,
             |s| {
